@@ -166,6 +166,9 @@ for f, fns in DEEP_PP.items():
         GROUPS.append(G("deep.%s.n%d.search" % (f, n), "harness/C07/deep_pp.c", "h_deep", PPALL,
                         defs=["N=%d" % n, "F_" + f], level="N", backend="native", search=3000 if f == "ppMinPolyMod" else 20000, fn=fns,
                         note="native ASan/UBSan run on a scratch stack of exactly f_deep() octets, seeded search over operand values; NOT proof"))
+GROUPS.append(G("deep.ppMulAll.search", "harness/C07/deep_pp.c", "h_deep", PPALL, defs=["F_ppMulAll"], level="N", backend="native", search=60000,
+                fn=["ppMul", "ppSqr", "ppDiv", "ppMod", "ppMul_deep", "ppSqr_deep", "ppDiv_deep", "ppMod_deep"],
+                note="every operand size 1..24 x 1..24 (all Karatsuba levels and fixed-size kernels) on stacks of exactly f_deep() octets; NOT proof"))
 for l in (1, 7, 63, 65, 100):
     GROUPS.append(G("deep.ppMinPoly.l%d.search" % l, "harness/C07/deep_pp.c", "h_deep", PPALL,
                     defs=["L=%d" % l, "F_ppMinPoly"], level="N", backend="native", search=20000, fn=DEEP_PP["ppMinPoly"],
